@@ -125,7 +125,45 @@ def handshake(rng, run):
     return {"run": run, "cfg": cfg, "pre": pre, "batches": rand_batches(rng, nc, rng.randint(2, 8), allow_drop=False)}
 
 
-PROFILES = {"base": base, "faults": faults, "handshake": handshake}
+def art(rng, run):
+    nc = rng.choice([1, 2])
+    limit = rng.choice([1, 2, 3, 4, 7, 64, 4096, 8192])
+    sizes = [-1, 0, 1, max(1, limit - 1), limit, limit + 1, 3 * limit + 1, 2 * limit]
+    if limit >= 64:
+        sizes += [4095, 4096, 4097, 20000]
+    else:
+        sizes += [rng.randint(0, 40)]
+    pic = {"embedded": rng.choice(sizes), "file": rng.choice(sizes), "limit": limit,
+           "mime": list(rng.choice([b"image/jpeg", b"image/png", b"x y"])) if rng.random() < 0.6 else None,
+           "embedded_ack": rng.choice([0, 0, 0, 0, 5, 5, 50, 2, 4]), "file_ack": rng.choice([0, 0, 0, 0, 50, 5, 2])}
+    cfg = {"callers": nc, "split_seed": rng.getrandbits(48) | 1, "pic": pic}
+    if rng.random() < 0.2:
+        cfg["max_read"] = rng.choice([1, 5, 100, 4096])
+    batches = []
+    n = rng.randint(4, 14)
+    art_at = rng.randint(0, 2)
+    for i in range(n):
+        b = []
+        if i == art_at:
+            b.append({"op": "issue", "c": 0, "kind": "art"})
+        for _ in range(rng.choice([1, 1, 2])):
+            x = rng.random()
+            if x < 0.55:
+                b.append({"op": "deliver"} if rng.random() < 0.6 else {"op": "deliver", "units": rng.randint(1, 4)})
+            elif x < 0.7:
+                b.append({"op": "change", "subs": rng.sample(SUBS, rng.choice([1, 2]))})
+            elif x < 0.85 and nc > 1:
+                b.append({"op": "issue", "c": 1, "kind": "raw", "cmds": rand_cmds(rng, 1)})
+            else:
+                b.append({"op": "timeout"})
+        batches.append(b)
+    # enough deliveries for many chunks
+    for _ in range(min(60, (max(pic["embedded"], pic["file"], 0) // limit) + 4)):
+        batches.append([{"op": "deliver"}])
+    return {"run": run, "cfg": cfg, "batches": batches}
+
+
+PROFILES = {"base": base, "faults": faults, "handshake": handshake, "art": art}
 
 
 def generate(profile, n, seed, start=0):
